@@ -292,10 +292,18 @@ def run(prop, tier, seed, update_lock=False, verbose=False):
             (inits if m.group(2) == "init" else press).add(
                 (m.group(1), m.group(3)))
     for fn_name, loop in sorted(inits - press):
-        if not any(fn_name in u for u in result["undecided"]):
-            result["errors"].append(
-                f"{fn_name}: loop {loop} has no preservation obligation (its "
-                f"body never reaches its end: vacuous loop specification?)")
+        if any(fn_name in u for u in result["undecided"]):
+            continue
+        msg = (f"{fn_name}: loop {loop} has no preservation obligation (its "
+               f"body never reaches its end: vacuous loop specification?)")
+        lock0 = load_lock(prop)
+        if lock0 is not None and any(
+                n.startswith(f"{fn_name}#inv-pres:{loop}.") for n in lock0):
+            # the loop had preservation obligations on the unchanged tree:
+            # the code changed, this is not a defect of the contract
+            result["undecided"].append(msg)
+        else:
+            result["errors"].append(msg)
     discharged_names, failed = set(), {}
     n_inst = n_unsat = 0
     backends = {}
